@@ -122,6 +122,10 @@ func wireClock() {
 
 func runOne(p *core.Prop, c *core.Ctx) {
 	simrt.ResetClock(c.Rec.Seed)
+	if p.ID == "C04" {
+		// the time bound of a decode also counts the bytes moved and scanned by bulk primitives
+		verifsim.WorkHook = simrt.Work
+	}
 	simrt.Steps = 0
 	simrt.Limit = 0
 	c.Steps = &simrt.Steps
